@@ -34,6 +34,11 @@ def run(ctx):
         "unsigned {} , origin_server_ts 0, the same event cited twice in prev_events and in auth_events, state key = sender; "
         "content values in valid but unusual spellings (escaped solidus, \\u escapes incl. U+2028 and a surrogate pair, HTML "
         "characters, an object with white space and unsorted nested keys)",
+        "family len: type / state key / sender of exactly 255 bytes (an event: Build succeeds, every clause holds), of 255 "
+        "code points in more bytes and of 256 bytes (Build reports the field check's error; if it hands the event over next "
+        "to the error, CheckFields and the untrusted parse of that event must refuse it in the same class, persistable or not)",
+        "domainless room versions: auth_events citing the create event explicitly (last, in the middle, first and last): "
+        "AuthEventIDs() = the implied create event first, then the listed references unchanged (the explicit copies stay)",
         "every headered step also goes through NewEventFromTrustedJSONWithEventID; after every call the object the call was "
         "made on must still be an event of the same identity; every third behaviour is repeated on a fresh event without "
         "reading any accessor between the calls (cold caches); IRoomVersion.NewEventBuilder() filled by hand must build the "
@@ -52,7 +57,7 @@ def run(ctx):
         "prev/auth/depth/unsigned variants x (%s) and x 17 sibling fields after 0/1 operation; family num: 16 room versions x %s shapes x 11 number classes in the content x behaviours of length %s; distinct = distinct "
         "(family, ID format, redaction algorithm, domainless, type, operation sequence, redacted pattern, sibling field, "
         "number class)" % ((ops,) + (("3", "2") if ctx.tier == "quick" else ("6", "3"))))
-    fams = ["ops", "opsb", "num", "sib"] if ctx.tier == "quick" else ["ops", "ops2", "num", "sib"]
+    fams = ["ops", "opsb", "num", "len", "sib"] if ctx.tier == "quick" else ["ops", "ops2", "num", "len", "sib"]
     ctx.notes["constants"] = ", ".join("EventIdentity_gen_%s_%s.cfg" % (f, ctx.tier) for f in fams)
     for fam in fams:
         r = ctx.tlc("EventIdentity_gen", "EventIdentity_gen_%s_%s.cfg" % (fam, ctx.tier), timeout=2400)
@@ -64,6 +69,13 @@ def run(ctx):
 def _fresh(ctx, probe, cmd):
     out = [r for r in ctx.harness(cmd, [probe], pkg=PKG) if "i" in r]   # fresh process
     return out[0] if out else None
+
+
+def _shape(line):
+    """what of a trace line is the same in every recording (room versions 1-2 draw random event IDs)"""
+    ab = lambda a: (a["type"], sorted(a["top"]), sorted(a["con"]), a["tpiobj"], sorted(a["tpi"]))
+    return (line["ver"], line["op"], line["tampered"], line["bred"], line["ared"], line["hashmatch"], line["idsame"],
+            ab(line["before"]), ab(line["after"]))
 
 
 def record_and_validate(ctx, mode, n, pid):
@@ -84,6 +96,18 @@ def record_and_validate(ctx, mode, n, pid):
 
     why = {}
     reported = set()
+    second = {}
+
+    def _rerecord(lineno):
+        if not second:
+            import json
+            t2 = os.path.join(ctx.scratch, "%s_trace_again.ndjson" % mode)
+            ctx.harness("c03rec", args=["-out", t2, "-n", n, "-mode", mode], pkg=PKG)
+            with open(t2) as f:
+                for i, line in enumerate(f, 1):
+                    if line.strip():
+                        second[i] = json.loads(line)
+        return second.get(lineno)
 
     def on_reject(rec, lineno):
         if not why:
@@ -99,7 +123,21 @@ def record_and_validate(ctx, mode, n, pid):
         probe = {"fam": "probe", "ver": rec["ver"], "probe": rec}
         r0 = _fresh(ctx, probe, cmd)
         if r0 is None or r0.get("ok"):
-            raise MachineryError("recorded result of trace line %d did not reproduce in a fresh process" % lineno)
+            # not reproducible by the call alone: misbehaviour that depends on what the process did before? Record the
+            # whole trace again in a fresh process (same seed): the line must come out the same.
+            again = _rerecord(lineno)
+            if again is None or _shape(again) != _shape(rec):
+                raise MachineryError("recorded result of trace line %d did not reproduce in a fresh process" % lineno)
+            key = "%s/trace/%s%s/%s/only-after-earlier-calls" % (pid, OPNAMES.get(rec["op"], rec["op"]),
+                                                                 "/tampered" if rec.get("tampered") else "", w)
+            if key not in reported:
+                reported.add(key)
+                ctx.disagree(key, "the specification does not derive the %s observed for %s (room version %s); the call "
+                             "alone in a fresh process behaves, the same sequence of calls in a fresh process reproduces it: "
+                             "the result depends on earlier calls (trace line %d of c03rec -mode %s -n %d, seed %d)"
+                             % (w, OPNAMES.get(rec["op"], rec["op"]), rec["ver"], lineno, mode, n, ctx.seed),
+                             {"harness": cmd, "pkg": PKG, "record": probe, "result": {"ok": False, "line": lineno, "observed": rec}, "count": 1})
+            return
         if r0.get("key") != "reproduced":
             raise MachineryError("trace line %d: %s" % (lineno, r0.get("what")))
         key = "%s/trace/%s%s/%s" % (pid, OPNAMES.get(rec["op"], rec["op"]), "/tampered" if rec.get("tampered") else "", w)
